@@ -287,33 +287,34 @@ func (e *Engine) logAbs(format string, a ...interface{}) {
 }
 
 type fnCtx struct {
-	alias       map[string]string // contract name of a renamed variable -> its current name
-	evalHeader  *ssa.BasicBlock   // loop header whose clauses are being evaluated
-	eng         *Engine
-	fn          *ssa.Function
-	con         *Contract
-	key         string // pkgpath.FuncKey
-	short       string // pkgname.FuncKey
-	headers     map[*ssa.BasicBlock]int
-	hdrList     []*ssa.BasicBlock
-	atCallHit   map[*Clause]bool // at_call clauses whose pattern matched some call site
-	loopEnds    []token.Pos
-	hasExit     bool
-	siteOrd     map[ssa.Instruction]int
-	paths       int
-	writes      map[string]bool // heap arrays written anywhere in the function (for loop havoc)
-	collecting  bool
-	abstracted  bool
-	maxPaths    int
-	loopNames   map[*ssa.BasicBlock]map[string]nameBind
-	unroll      int // > 0: bounded mode, loops unrolled (counterexample search only)
-	lastParams  []*Val
-	bindOutside map[*TraceDecl]bool
-	curBlock    *ssa.BasicBlock // top-frame position being executed (for write positions)
-	curIdx      int
-	writePos    map[string][]wpos
-	curHeader   *ssa.BasicBlock // header the current path started from (nil: entry)
-	loopBlk     map[*ssa.BasicBlock]map[*ssa.BasicBlock]bool
+	alias         map[string]string // contract name of a renamed variable -> its current name
+	evalHeader    *ssa.BasicBlock   // loop header whose clauses are being evaluated
+	eng           *Engine
+	fn            *ssa.Function
+	con           *Contract
+	key           string // pkgpath.FuncKey
+	short         string // pkgname.FuncKey
+	headers       map[*ssa.BasicBlock]int
+	hdrList       []*ssa.BasicBlock
+	atCallHit     map[*Clause]bool // at_call clauses whose pattern matched some call site
+	reachedReturn bool             // some path (from the entry or a loop header) reached a normal return
+	loopEnds      []token.Pos
+	hasExit       bool
+	siteOrd       map[ssa.Instruction]int
+	paths         int
+	writes        map[string]bool // heap arrays written anywhere in the function (for loop havoc)
+	collecting    bool
+	abstracted    bool
+	maxPaths      int
+	loopNames     map[*ssa.BasicBlock]map[string]nameBind
+	unroll        int // > 0: bounded mode, loops unrolled (counterexample search only)
+	lastParams    []*Val
+	bindOutside   map[*TraceDecl]bool
+	curBlock      *ssa.BasicBlock // top-frame position being executed (for write positions)
+	curIdx        int
+	writePos      map[string][]wpos
+	curHeader     *ssa.BasicBlock // header the current path started from (nil: entry)
+	loopBlk       map[*ssa.BasicBlock]map[*ssa.BasicBlock]bool
 }
 
 type wpos struct {
@@ -574,7 +575,7 @@ func (x *fnCtx) addVC(st *State, fnShort, kind string, ord int, sub string, goal
 	if goal == True {
 		// decided by the generator's simplifier: recorded, discharged syntactically
 		switch kind {
-		case "post", "at_call", "at_store", "only_calls", "inv_init", "inv_keep", "step", "exit", "trace_step", "pre", "monitor", "lemma", "lockpost", "callpost":
+		case "post", "at_call", "at_store", "only_calls", "inv_init", "inv_keep", "step", "exit", "trace_step", "pre", "monitor", "lemma", "lockpost", "callpost", "capture", "trace_entry":
 			e.noteTrivial(name, fnShort, kind, ord, desc)
 		}
 		return
@@ -1047,7 +1048,7 @@ func kindLayer(kind string) string {
 		return "safety"
 	case "overflow":
 		return "overflow"
-	case "trace_ensures", "trace_panics":
+	case "trace_ensures", "trace_panics", "trace_entry":
 		return "trace"
 	case "guard", "lock", "unlock", "lockleak", "lockpost", "monitor", "chanclose":
 		return "lock"
